@@ -24,10 +24,15 @@ for pid in props:
         "technique": meta["technique"],
     }
     checks.append(c)
-hooks_commits = []
-hf = os.path.join(ROOT, "MANIFEST.hooks")
-if os.path.exists(hf):
-    hooks_commits = [l.split()[0] for l in open(hf) if l.strip() and not l.startswith("#")]
+import subprocess
+# hook commits in /repo: every commit touching a verif_*.go file (all are //go:build verif, add-only)
+log = subprocess.run(["git", "-C", "/repo", "log", "--format=%H %s", "--", "*verif_*.go"], capture_output=True, text=True).stdout
+hooks_commits = [l.split()[0] for l in log.splitlines() if l.strip()]
+with open(os.path.join(ROOT, "MANIFEST.hooks"), "w") as f:
+    f.write("# guard: build tag `verif` (files named verif_*.go, each starting with //go:build verif; add-only)\n")
+    f.write("# commits in /repo that add hooks:\n")
+    for l in log.splitlines():
+        f.write(l + "\n")
 man = {
     "version": 1,
     "setup_cmd": "bin/setup",
@@ -45,7 +50,7 @@ man = {
     }],
     "checks": checks,
     "not_applicable": na,
-    "notes": "See DESIGN.md. Known findings: known_findings.json. Seeded breakages used to test the checks: seeded/.",
+    "notes": "See DESIGN.md. Known findings: known_findings/Cxx.json. Seeded breakages used to test the checks: seeded/.",
 }
 json.dump(man, open(os.path.join(ROOT, "MANIFEST.json"), "w"), indent=1)
 print("claimed:", [c["property_id"] for c in checks])
